@@ -496,9 +496,24 @@ def log_step(it, stmt, fr, loglist, state, prefix):
 
     def frle(it_, func, args, kwargs, node):
         calls.append((args[-2], args[-1]))
-        cls = it.repo.import_module('pykdebugparser.os_log_event').ns['OsLogEvent']
-        o = Obj(cls, {'process': atom_str(z3.Int('log.process')), 'thread_identifier': SInt(z3.Int('log.tid')),
-                      'process_identifier': SInt(z3.Int('log.pid'))})
+        mod_ = it.repo.import_module('pykdebugparser.os_log_event')
+        cls = mod_.ns['OsLogEvent']
+        # an arbitrary decoded record: every field of the dataclass is there (defaults for the ones nothing is assumed about),
+        # the trace identifier is optional and of an arbitrary namespace
+        fields = {}
+        for n_, d_ in cls.fields:
+            fields[n_] = None if d_ is MISSING else (d_ if not hasattr(d_, 'fn') else PDict())
+        ticls = mod_.ns.get('TraceIdentifier')
+        nscls = mod_.ns.get('FirehoseTracepointNamespace')
+        if isinstance(ticls, ClassVal) and isinstance(nscls, ClassVal):
+            tif = {n_: SInt(z3.Int('log.ti.' + n_)) for n_, _ in ticls.fields}
+            nsv = z3.Int('log.ti.namespace')
+            it_.ctx.facts.append(z3.Or([nsv == v for _, v in nscls.members]))
+            tif['namespace'] = SEnum(nscls, nsv)
+            fields['trace_identifier'] = SOpt(z3.Bool('log.ti.present'), Obj(ticls, tif))
+        fields.update({'process': atom_str(z3.Int('log.process')), 'thread_identifier': SInt(z3.Int('log.tid')),
+                       'process_identifier': SInt(z3.Int('log.pid')), 'composed_message': atom_str(z3.Int('log.msg'))})
+        o = Obj(cls, fields)
         state['log_obj'] = o
         state['log_fields'] = dict(o.fields)
         return o
